@@ -380,6 +380,8 @@ class LoopCtx:
             return Opt(z3.Bool(fresh_name(name + '_none')), inner)
         if isinstance(old, Opaque):
             return Opaque(fresh_name(name), kind=old.kind)
+        if name in self.engine.assigned_names([self.node.target] if hasattr(self.node, 'target') else []):
+            return Opaque(fresh_name(name))   # the loop target is assigned before it is used
         from .engine import EngineError
         raise EngineError(f'cannot havoc local {name} of type {type(old).__name__}')
 
@@ -469,6 +471,7 @@ class Registry:
         self.inline = set()
         self.lemmas = []
         self.lock_levels = {}
+        self.unattached_loops = []
         self.global_overrides = {}   # (module, name) -> value for module constants built by unmodelled library calls
 
     def contract(self, target, **kw):
@@ -520,7 +523,9 @@ class Registry:
             loops = [n for n in ast.walk(fi.node) if isinstance(n, (ast.For, ast.While))]
             for k in c.loops:
                 if k >= len(loops) and not c.inline:
-                    problems.append(f'loop ordinal {k} of {t} does not exist')
+                    # the loop the invariant was written for is gone: the invariant is simply unused and the
+                    # function is verified as it now stands (recorded, not fatal)
+                    self.unattached_loops.append(f'loop ordinal {k} of {t} does not exist (its invariant is unused)')
         # (an inline mark for a method a class merely inherits is harmless: a call that resolves to a
         # function without contract and without inline mark makes the root out of reach anyway)
         for cl in list(self.fields) + list(self.monitors):
